@@ -234,6 +234,35 @@ Theorem C05_h2_meta_close_after_invalid_refuted :
 Proof. exact h2_meta_close_after_invalid_refuted. Qed.
 Print Assumptions C05_h2_meta_close_after_invalid_refuted.
 
+(* Framer.ErrorDetail over a sequence of ReadFrame calls (header blocks, and frames the frame parser
+   refuses before checkFrameOrder): ReadFrame clears the carried detail first, so what ErrorDetail()
+   says after a call does not depend on what an earlier call left behind ... *)
+Theorem C05_h2_error_detail_per_frame : forall mx evs dec d1 d2,
+  read_events true dec d1 mx evs = read_events true dec d2 mx evs.
+Proof. exact h2_error_detail_per_frame. Qed.
+Print Assumptions C05_h2_error_detail_per_frame.
+
+(* ... it is non-nil exactly after a header block that ends in a stream error (malformed field,
+   pseudo-header misuse), never after a frame the parser refused *)
+Theorem C05_h2_error_detail_spec : forall dec d mx ev o st, read_event true dec d mx ev = (o, st) ->
+  snd o = match ev, fst o with
+          | EvRejected _, _ => false
+          | EvBlock _ _ _ _, MErr (EStream _ _) => true
+          | EvBlock _ _ _ _, _ => false
+          end.
+Proof. exact h2_error_detail_spec. Qed.
+Print Assumptions C05_h2_error_detail_spec.
+
+(* with the reset moved into checkFrameOrder the refused frame inherits the malformed block's detail *)
+Theorem C05_h2_error_detail_reset_late_refuted :
+  let bad := EvBlock 1 false false [(10, [(bs ":status", bs "200"); (bs "X-Upper", bs "v")])] in
+  read_events true (true, false) false 65536 [bad; EvRejected 3] =
+    [(MErr (EStream 1 ErrCodeProtocol), true); (MErr (EStream 3 ErrCodeProtocol), false)] /\
+  read_events false (true, false) false 65536 [bad; EvRejected 3] =
+    [(MErr (EStream 1 ErrCodeProtocol), true); (MErr (EStream 3 ErrCodeProtocol), true)].
+Proof. exact h2_error_detail_reset_late_refuted. Qed.
+Print Assumptions C05_h2_error_detail_reset_late_refuted.
+
 (* ---------- one connection's request header encoder over a sequence of exchanges ---------- *)
 
 (* ClientConn.encodeHeaders / encodeTrailers refuse a list larger than the peer's
